@@ -114,7 +114,7 @@ func (h cliFatalHook) OnWrite(*zapcore.CheckedEntry, []zapcore.Field) {
 	select {
 	case <-waited:
 		h.cs.add("fatal.w1")
-	case <-time.After(50 * time.Millisecond):
+	case <-time.After(100 * time.Millisecond):
 		h.cs.add("fatal.w0")
 	}
 	runtime.Goexit()
